@@ -319,6 +319,16 @@ def load_stats(p):
     return st
 
 
+def _big_stack():
+    # the extracted list functions are not tail recursive; MiB-sized byte lists need a deep stack
+    import resource
+    soft, hard = resource.getrlimit(resource.RLIMIT_STACK)
+    try:
+        resource.setrlimit(resource.RLIMIT_STACK, (hard, hard))
+    except (ValueError, OSError):
+        pass
+
+
 def load_cases(cases_p, modelrun, log):
     cases = []
     with open(cases_p) as f:
@@ -330,7 +340,7 @@ def load_cases(cases_p, modelrun, log):
     t0 = time.time()
     with open(cases_p) as f:
         p = subprocess.run(["timeout", "900", modelrun], stdin=f, stdout=subprocess.PIPE, stderr=subprocess.PIPE,
-                           text=True)
+                           text=True, preexec_fn=_big_stack)
     log.append(("modelrun < %s (%.1fs)" % (os.path.basename(cases_p), time.time() - t0), p.returncode))
     if p.returncode != 0:
         raise RuntimeError("extracted model runner failed:\n" + p.stderr[-2000:])
